@@ -579,6 +579,7 @@ impl Watch {
             let size = wire::encode(&s.pkt, self.idw).len();
             if limit.map_or(false, |l| size > l as usize) {
                 ctx.owed.insert(s.id);
+                ctx.owed_props = vec!["C14", "C06"];
                 self.stats.hit("oversize_stored_dropped");
             } else {
                 expect.push(s.pkt.clone());
@@ -813,7 +814,8 @@ impl Watch {
         self.common(&evs, ctx);
         if !self.failed() && self.m.armed.iter().any(|a| *a) {
             let a = self.m.armed;
-            self.flag(&["C15"], "armed-after-close", format!("{what}: timers still armed after the transport was reported closed: {:?}", a));
+            // a timer that survives the close also runs into the next connection (C10)
+            self.flag(&["C15", "C10"], "armed-after-close", format!("{what}: timers still armed after the transport was reported closed: {:?}", a));
         }
         evs
     }
